@@ -98,7 +98,9 @@ impl Slicing {
             .map(Variable::into_int)
             .transpose()
             .unwrap()
-            .map(|i| i as isize);
+            // slyce negates negative bounds; isize::MIN has no negation and MIN + 1
+            // denotes the same bound for any sequence that fits in memory
+            .map(|i| i.max(i64::MIN + 1) as isize);
         Ok(start)
     }
 }
